@@ -74,8 +74,10 @@ def rules(fx, rep):
             taken_true = labs[0][1] != 0
             nd_atoms = nd.atoms() if isinstance(nd, Lin) else set()
             # nd must be the sum xi^2 t^4 + xi t^2 (an opaque atom created by that addition)
-            site = [s for s in I.opaque_sites if s[0] in nd_atoms]
-            is_sum = len(site) == 1 and 'add_assign(Lin(t:4, xi:2), Lin(t:2, xi:1))' in site[0][1] or (len(site) == 1 and 'add_assign(Lin(t:2, xi:1), Lin(t:4, xi:2))' in site[0][1])
+            defs = [exp.OPAQUE_DEFS.get(a_) for a_ in nd_atoms]
+            parts = (Lin({'t': 4, 'xi': 2}), Lin({'t': 2, 'xi': 1}))
+            is_sum = (isinstance(nd, Lin) and len(nd.t) == 1 and list(nd.t.values()) == [1] and len(defs) == 1 and defs[0] is not None and defs[0][0] == 'add_assign'
+                      and ((defs[0][1] == parts[0] and defs[0][2] == parts[1]) or (defs[0][1] == parts[1] and defs[0][2] == parts[0])))
             rep.check(is_sum, 'GUARD', 'helper:branch-on-denominator', 'the branch tests xi^2 t^4 + xi t^2 for zero', 'the branch tests %r' % (nd,), hw)
             if taken_true:
                 ok_exc = x0_den == Lin({'A': 1, 'xi': 1})
@@ -85,8 +87,9 @@ def rules(fx, rep):
                 want = Lin({'A': 1, '-1': 1}).add(nd)
                 rep.check(x0_den == want, 'GUARD', 'helper:generic-denominator', 'x-denominator = -A\' (xi^2 t^4 + xi t^2)', 'x-denominator is %r' % (x0_den,), hw)
                 # numerator B (1 + nd): opaque sum with one
-                s2 = [s for s in I.opaque_sites if s[0] in x0_num.atoms()]
-                good = x0_num.coeff('B') == 1 and len(s2) == 1 and ('add_assign(%r, Lin())' % (nd,)) in s2[0][1]
+                s2 = [exp.OPAQUE_DEFS.get(a_) for a_ in x0_num.atoms() if a_ in exp.OPAQUE_DEFS]
+                good = (x0_num.coeff('B') == 1 and len(x0_num.t) == 2 and len(s2) == 1 and s2[0][0] == 'add_assign'
+                        and ((s2[0][1] == nd and s2[0][2] == Lin()) or (s2[0][2] == nd and s2[0][1] == Lin())))
                 rep.check(good, 'EXP', 'helper:numerator', 'x-numerator = B\' (1 + xi^2 t^4 + xi t^2)', 'x-numerator is %r (%s)' % (x0_num, s2), hw)
         else:
             rep.fail('GUARD', 'helper:branch-on-denominator', 'unexpected branch structure %r' % (labs,), hw)
@@ -273,6 +276,9 @@ def rules(fx, rep):
                 rep.fail('GUARD', '%s:return-under-one-match' % g, 'a point is returned without its own candidate test succeeding (labels %r)' % ([(l[0][0], l[1]) for l in pth.labels],), where)
                 continue
             lab = false_eqs[0][0] if g1_second else true_eqs[0][0]
+            if not (isinstance(lab[1], Lin) and isinstance(lab[2], Lin)):
+                rep.fail('EXP', '%s:candidate-test-tracked' % g, 'the candidate test compares %r with %r: not monomials in the helper outputs' % (lab[1], lab[2]), where, construct=path)
+                continue
             lhs, rhs = subst(lab[1], rel), subst(lab[2], rel)
             rep.check(Zs == Lin({'x0_den': 1}), 'EXP', '%s:Z=x-denominator@%d' % (g, len(false_eqs)), 'Z is the x-denominator', 'Z is %r' % (Zc,), where)
             # sign fix: exactly one negate_if on the y place, argument sgn0(y_affine) ^ sgn0(t)
